@@ -396,6 +396,54 @@ theorem sumMap_write (rs : List FileRec) (h : ∀ r ∈ rs, WFRecWrite r) :
     simp only [Impl.sumMap, PduSpec.sum, List.map_cons, List.foldr_cons] at this ⊢
     omega
 
+/-- what the server-side decoder makes of a read sub-request: the three fields; no data, response length 1 -/
+def readRecDecoded (r : FileRec) : FileRec :=
+  { referenceType := 6, fileNumber := r.fileNumber, recordNumber := r.recordNumber, recordData := [],
+    recordLength := r.recordLength, responseLength := 1 }
+
+theorem fileSubReq_length (r : FileRec) : (fileSubReq r).length = 7 := by simp [fileSubReq, u16]
+
+theorem unpack_sub (r : FileRec) (h : WFRec r) :
+    Impl.unpackBHHH (fileSubReq r) = .ok (6, r.fileNumber, r.recordNumber, r.recordLength) := by
+  obtain ⟨h1, h2, h3⟩ := h
+  simp only [U16] at h1 h2 h3
+  simp only [fileSubReq, u16, List.cons_append, List.nil_append, Impl.unpackBHHH]
+  congr 1
+  simp only [Prod.mk.injEq, true_and]
+  refine ⟨?_, ?_, ?_⟩ <;> omega
+
+theorem decRecs7_spec (rs : List FileRec) (h : ∀ r ∈ rs, WFRec r) (pre tail : Bytes) :
+    Impl.decRecs7 (pre ++ rs.flatMap fileSubReq ++ tail) pre.length rs.length = .ok (rs.map readRecDecoded) := by
+  induction rs generalizing pre with
+  | nil => rfl
+  | cons r rs ih =>
+    have hsl : Impl.slice (pre ++ (r :: rs).flatMap fileSubReq ++ tail) pre.length (pre.length + 7) = fileSubReq r := by
+      simp only [Impl.slice, List.flatMap_cons, List.append_assoc, List.drop_left']
+      rw [show pre.length + 7 - pre.length = 7 by omega]
+      have := fileSubReq_length r
+      rw [List.take_append_of_le_length (by omega), List.take_of_length_le (by omega)]
+    have ih' := ih (fun x hx => h x (by simp [hx])) (pre ++ fileSubReq r)
+    simp only [List.length_append, fileSubReq_length, List.append_assoc] at ih'
+    have hd : pre ++ (r :: rs).flatMap fileSubReq ++ tail = pre ++ (fileSubReq r ++ (rs.flatMap fileSubReq ++ tail)) := by
+      simp [List.flatMap_cons, List.append_assoc]
+    rw [List.length_cons, Impl.decRecs7]
+    simp only [hsl, unpack_sub r (h r (by simp)), bind, Except.bind]
+    rw [hd, ih']
+    rfl
+
+/-- every conformant Read File Record request PDU decodes to its sub-requests, in order — any number of them -/
+theorem dec_readFileRecord_req_conforms (rs : List FileRec) (h : ∀ r ∈ rs, WFRec r) (hl : 7 * rs.length < 256) :
+    Impl.decReq (20 :: PduSpec.encReq (.readFileRecord rs)) = .ok (.readFileRecord (rs.map readRecDecoded)) := by
+  have hn : Impl.rangeLen 1 (7 * rs.length) 7 = rs.length := by
+    unfold Impl.rangeLen
+    split <;> omega
+  have := decRecs7_spec rs h [7 * rs.length] []
+  simp only [List.length_singleton, List.append_nil] at this
+  show Impl.decReq (20 :: ([7 * rs.length] ++ rs.flatMap fileSubReq)) = _
+  unfold Impl.decReq
+  simp only [List.drop_one, List.tail_cons, Impl.idx, List.singleton_append, List.getElem?_cons_zero, hn, bind, Except.bind, pure, Except.pure]
+  rw [show (7 * rs.length :: List.flatMap fileSubReq rs) = [7 * rs.length] ++ List.flatMap fileSubReq rs from rfl, this]
+
 /-- Read File Record request: byte count 7·n, then per sub-request `06 file record length` -/
 theorem enc_readFileRecord_req_conforms (rs : List FileRec) (h : ∀ r ∈ rs, WFRec r) (hl : 7 * rs.length < 256) :
     Impl.encReq (.readFileRecord rs) = .ok (PduSpec.encReq (.readFileRecord rs)) := by
